@@ -184,8 +184,8 @@ def digest_eq(tier):
     from immutabledict import immutabledict
     from pymbolic.mapper.persistent_hash import PersistentHashWalkMapper
     b = BoundedRun("digest-respects-eq", rule="pairs of equal expressions built differently (keyword order, dict vs immutabledict, 4 vs 4.0 vs True constants, "
-                   "tuple vs scalar index, by-name comparison operators, and with shared vs. separately built equal subexpression objects): persistent digests must be equal",
-                   bound="fixed list of 12 pairs", functions=["PersistentHashWalkMapper"])
+                   "tuple vs scalar index, by-name comparison operators, with shared vs. separately built equal subexpression objects, parsed vs. constructed): persistent digests must be equal",
+                   bound="fixed list of 16 pairs", functions=["PersistentHashWalkMapper"])
 
     def dg(e):
         h = hashlib.sha256()
@@ -216,6 +216,13 @@ def digest_eq(tier):
              p.Quotient(p.Sum((p.Sum((x, y)), 1)), p.Product((p.Sum((x, y)), p.Sum((p.Sum((x, y)), 1)))))),
             ("shared-call-args", p.Call(f, (s_, s_)), p.Call(f, (p.Sum((x, y)), p.Sum((x, y))))),
         ]
+    # equal expressions of which one comes from the parser (its nested tuples are instances of a tuple subclass)
+    from pymbolic import parse
+    for pname, src, built in (("parsed-nested-tuple", "x[(1, 2),]", p.Subscript(x, ((1, 2),))), ("parsed-call-with-tuple", "f((x, y), 2)", p.Call(f, ((x, y), 2))),
+                              ("parsed-sum", "x + y*2", p.Sum((x, p.Product((y, 2))))), ("parsed-subscript", "a[x, y]", p.Subscript(trees.A, (x, y)))):
+        pr = outcome.run(lambda: parse(src))
+        if pr[0] == "val":
+            pairs.append((pname, pr[1], built))
     for name, a, c in pairs:
         if not (a == c):
             continue
